@@ -958,6 +958,275 @@ func ruleDivContext(p *Program, r *Reporter) {
 			r.Fail(key, p.Pos(a.lexNext.Pos()), "the lexer's division-or-regexp decision no longer treats `/` after a "+nm+" token as division: `a"+map[string]string{"RSQUARE": "[0]", "RPAREN": "()", "IDENT": "", "FLOAT": "", "INT": ""}[nm]+" / 2` starts a regexp literal")
 		}
 	}
+	divOnlyInContext(p, r)
+}
+
+// divOnlyInContext: the other direction.  Every token the lexer makes of a `/`
+// that is not a regexp literal — the division operator and the `/=` operator —
+// is made on a path that has passed a decision on the previous token.  Made
+// without looking back, `/=` swallows the start of every regexp whose pattern
+// begins with `=` (`x ~= /=yes$/`).
+func divOnlyInContext(p *Program, r *Reporter) {
+	kinds := map[string]string{}
+	for _, nm := range []string{"SLASH", "SLASHEQUALS"} {
+		if v, ok := tokenConst(p, nm); ok {
+			kinds[v] = nm
+		}
+	}
+	prevDependent := map[*ssa.Function]bool{}
+	for _, fn := range lexerFns(p) {
+		for _, b := range fn.Blocks {
+			for _, ins := range b.Instrs {
+				if fa, ok := ins.(*ssa.FieldAddr); ok && fieldKey(fa) == "lexer.Lexer.prevToken" {
+					for _, ref := range liveRefs(fa) {
+						if _, isStore := ref.(*ssa.Store); !isStore {
+							prevDependent[fn] = true
+						}
+					}
+				}
+			}
+		}
+	}
+	var fromPrev func(v ssa.Value, d int) bool
+	fromPrev = func(v ssa.Value, d int) bool {
+		if v == nil || d > 8 {
+			return false
+		}
+		switch x := v.(type) {
+		case *ssa.UnOp:
+			return fromPrev(x.X, d+1)
+		case *ssa.FieldAddr:
+			return fieldKey(x) == "lexer.Lexer.prevToken" || fromPrev(x.X, d+1)
+		case *ssa.BinOp:
+			return fromPrev(x.X, d+1) || fromPrev(x.Y, d+1)
+		case *ssa.Lookup:
+			return fromPrev(x.Index, d+1)
+		case *ssa.Extract:
+			return fromPrev(x.Tuple, d+1)
+		case *ssa.Phi:
+			for _, e := range x.Edges {
+				if fromPrev(e, d+1) {
+					return true
+				}
+			}
+		case *ssa.Call:
+			for _, a := range x.Call.Args {
+				if fromPrev(a, d+1) {
+					return true
+				}
+			}
+			if cal := x.Call.StaticCallee(); cal != nil && prevDependent[cal] && fnPkg(cal) != nil && fnPkg(cal).Pkg.Path() == Mod+"/lexer" {
+				// a predicate of the lexer that reads the previous token itself
+				if rs := sigResults(cal); len(rs) == 1 && isBoolType(rs[0]) {
+					return true
+				}
+			}
+		case *ssa.Convert:
+			return fromPrev(x.X, d+1)
+		case *ssa.ChangeType:
+			return fromPrev(x.X, d+1)
+		}
+		return false
+	}
+	// decided: every path from fn's entry to block b crosses an edge out of a
+	// branch on the previous token
+	decided := func(fn *ssa.Function, at *ssa.BasicBlock) bool {
+		seen := map[*ssa.BasicBlock]bool{}
+		okAll := true
+		var back func(b *ssa.BasicBlock)
+		back = func(b *ssa.BasicBlock) {
+			if seen[b] || !okAll {
+				return
+			}
+			seen[b] = true
+			if len(b.Preds) == 0 {
+				okAll = false
+				return
+			}
+			for _, pd := range b.Preds {
+				if iff, ok := terminator(pd).(*ssa.If); ok && fromPrev(iff.Cond, 0) {
+					continue
+				}
+				back(pd)
+			}
+		}
+		back(at)
+		return okAll
+	}
+	nth := map[string]int{}
+	check := func(fn *ssa.Function, ins ssa.Instruction, what string) {
+		nth[what]++
+		key := fmt.Sprintf("token %s is made of a `/` only after a look at the previous token (%d)", what, nth[what])
+		if decided(fn, ins.Block()) {
+			r.OkNT(key, p.Pos(ins.Pos()), "every path to this place passes a branch on the previous token")
+		} else {
+			r.Fail(key, p.Pos(ins.Pos()), "the lexer makes a "+what+" token here on a path that never looked at the previous token: where a value cannot end — after an operator, a comma, an opening bracket — a `/` starts a regexp literal, and this path turns the beginning of such a literal into an operator (`x ~= /=yes$/` is no longer a match against the pattern `=yes$`)")
+		}
+	}
+	found := 0
+	for _, fn := range lexerFns(p) {
+		for _, b := range fn.Blocks {
+			for _, ins := range b.Instrs {
+				for _, op := range ins.Operands(nil) {
+					if op == nil || *op == nil {
+						continue
+					}
+					k, ok := (*op).(*ssa.Const)
+					if !ok || k.Value == nil || k.Value.Kind() != constant.String || !isNamed(k.Type(), "token", "Type") {
+						continue
+					}
+					nm, isDiv := kinds[constant.StringVal(k.Value)]
+					if !isDiv {
+						continue
+					}
+					// comparisons with the kind are not makings of it
+					if bo, ok := ins.(*ssa.BinOp); ok && (bo.Op == token.EQL || bo.Op == token.NEQ) {
+						continue
+					}
+					found++
+					check(fn, ins, nm)
+				}
+			}
+		}
+	}
+	// kinds kept in a package-level table: the look-ups are the makings
+	if sp := p.SSAPkg[Mod+"/lexer"]; sp != nil {
+		for _, m := range sp.Members {
+			g, ok := m.(*ssa.Global)
+			if !ok {
+				continue
+			}
+			keys, vals, info, ok := globalMapLiteral(p, g)
+			if !ok {
+				continue
+			}
+			holds := ""
+			for i := range keys {
+				if tv, has := info.Types[vals[i]]; has && tv.Value != nil && tv.Value.Kind() == constant.String {
+					if nm, isDiv := kinds[constant.StringVal(tv.Value)]; isDiv && isNamed(tv.Type, "token", "Type") {
+						holds = nm
+					}
+				}
+			}
+			if holds == "" {
+				continue
+			}
+			for _, fn := range lexerFns(p) {
+				for _, b := range fn.Blocks {
+					for _, ins := range b.Instrs {
+						if lk, ok := ins.(*ssa.Lookup); ok {
+							if ld, ok := lk.X.(*ssa.UnOp); ok && ld.X == ssa.Value(g) {
+								found++
+								check(fn, ins, holds+" (from the table "+g.Name()+")")
+							}
+						}
+					}
+				}
+			}
+		}
+	}
+	// kinds built into a function value at package initialisation
+	// (`var divide = operator(token.SLASH, follow{'=', token.SLASHEQUALS})`): the
+	// uses of that variable are the makings
+	if sp := p.SSAPkg[Mod+"/lexer"]; sp != nil && sp.Func("init") != nil {
+		ini := sp.Func("init")
+		var mentions func(v ssa.Value, depth int, seen map[ssa.Value]bool) string
+		mentions = func(v ssa.Value, depth int, seen map[ssa.Value]bool) string {
+			if v == nil || depth > 8 || seen[v] {
+				return ""
+			}
+			seen[v] = true
+			switch x := v.(type) {
+			case *ssa.Const:
+				if x.Value != nil && x.Value.Kind() == constant.String && isNamed(x.Type(), "token", "Type") {
+					return kinds[constant.StringVal(x.Value)]
+				}
+			case *ssa.Call:
+				for _, a := range x.Call.Args {
+					if m := mentions(a, depth+1, seen); m != "" {
+						return m
+					}
+				}
+			case *ssa.MakeClosure:
+				for _, b := range x.Bindings {
+					if m := mentions(b, depth+1, seen); m != "" {
+						return m
+					}
+				}
+			case *ssa.Slice:
+				return mentions(x.X, depth+1, seen)
+			case *ssa.MakeInterface:
+				return mentions(x.X, depth+1, seen)
+			case *ssa.ChangeType:
+				return mentions(x.X, depth+1, seen)
+			case *ssa.Convert:
+				return mentions(x.X, depth+1, seen)
+			case *ssa.UnOp:
+				return mentions(x.X, depth+1, seen)
+			case *ssa.Alloc:
+				var walkRefs func(a ssa.Value) string
+				walkRefs = func(a ssa.Value) string {
+					refs := a.Referrers()
+					if refs == nil {
+						return ""
+					}
+					for _, ref := range *refs {
+						switch y := ref.(type) {
+						case *ssa.Store:
+							if y.Addr == a {
+								if m := mentions(y.Val, depth+1, seen); m != "" {
+									return m
+								}
+							}
+						case *ssa.IndexAddr:
+							if m := walkRefs(y); m != "" {
+								return m
+							}
+						case *ssa.FieldAddr:
+							if m := walkRefs(y); m != "" {
+								return m
+							}
+						}
+					}
+					return ""
+				}
+				return walkRefs(x)
+			}
+			return ""
+		}
+		for _, b := range ini.Blocks {
+			for _, ins := range b.Instrs {
+				st, ok := ins.(*ssa.Store)
+				if !ok {
+					continue
+				}
+				g, ok := st.Addr.(*ssa.Global)
+				if !ok {
+					continue
+				}
+				if _, isMap := deref(g.Type()).Underlying().(*types.Map); isMap {
+					continue // tables of kinds: handled above
+				}
+				nm := mentions(st.Val, 0, map[ssa.Value]bool{})
+				if nm == "" {
+					continue
+				}
+				for _, fn := range lexerFns(p) {
+					for _, fb := range fn.Blocks {
+						for _, fi := range fb.Instrs {
+							if ld, ok := fi.(*ssa.UnOp); ok && ld.Op == token.MUL && ld.X == ssa.Value(g) {
+								found++
+								check(fn, fi, nm+" (through the variable "+g.Name()+")")
+							}
+						}
+					}
+				}
+			}
+		}
+	}
+	if found == 0 {
+		r.Undecided("tokens made of a `/`", "-", "cannot find where the lexer makes the division and `/=` tokens")
+	}
 }
 
 // ---------------------------------------------------------------------------
